@@ -113,6 +113,9 @@ pub fn observe(sc: &Scratch, o: &OptSet, stream: &[u8], nmarks: u32) -> Observed
         marks.push_str(&format!(":{} {:040x}\n", m, m));
     }
     std::fs::write(dd.join("target-marks"), marks).unwrap();
+    if let Some(pm) = &o.prior_map {
+        std::fs::write(dd.join("commit-map"), pm).unwrap();
+    }
     let stream_path = sc.dir.join("stream.fe");
     std::fs::write(&stream_path, stream).unwrap();
     let opts = build_options(sc, o, &stream_path);
@@ -154,6 +157,7 @@ pub fn model_request(o: &OptSet, stream: &[u8], nmarks: u32, all_paths: &[Vec<u8
     f(&mut kv, "emailfile", &o.email_file);
     f(&mut kv, "authorfile", &o.author_file);
     f(&mut kv, "committerfile", &o.committer_file);
+    f(&mut kv, "shmap", &o.prior_map);
     if let Some(s) = o.shift { kv.push(format!("shift={s}")); }
     if let Some(s) = o.set { kv.push(format!("set={s}")); }
     kv.push(format!("pe={}", pm_name(o.prune_empty)));
